@@ -10,6 +10,9 @@ import Mahotas.Proofs.C18Order3
 import Mahotas.Proofs.C18Tensor
 import Mahotas.Proofs.C18Init
 import Mahotas.Proofs.C18Order3b
+import Mahotas.Proofs.C18BSplineW
+import Mahotas.Proofs.C18Interp
+import Mahotas.Proofs.C18Resize
 import Mathlib.Data.Rat.Floor
 
 open Mahotas Mahotas.C18
@@ -585,3 +588,249 @@ example : InRange c18Im22.shape
     rw [c]
     simp only [multilinear, c18Im22, f1]
     norm_num [edgeFold, fixOffset, Img.getD, inside, ravelI, shapeSize]
+
+/-! ## Round 3: cardinal B-splines, the interpolation property, order 5, the `resize.py` wrappers -/
+
+/-- **C18 (`weights_are_bsplines`).** The piecewise polynomials of `spline_coefficients` are the cardinal B-splines.
+`bspline n` (`Proofs/C18BSpline.lean`) is the centred cardinal B-spline of degree `n` over an ordered field, defined by
+the Cox–de Boor recursion on the uniform knots `k − (n+1)/2`: `β⁰ = 1` on `[−½, ½)`,
+`β^{n+1}(x) = [(x + (n+2)/2)·βⁿ(x + ½) + ((n+2)/2 − x)·βⁿ(x − ½)]/(n+1)`. For **every** order 1–5 and **every** `x`:
+(1) the `switch(order)` body of the C++ code at the distance `|x|` is `β^order(x)`; (2) weight `h` of
+`spline_coefficients(x)` — the code's `splineCoeff order |start − x + h|` — is `β^order(x − (start + h))`, `start` as the
+code computes it; (3) at every other integer knot `k` (`k < start` or `k > start + order`) `β^order(x − k) = 0` — the
+`order + 1` knots the code visits are all the knots whose B-spline does not vanish at `x` (this part for every order
+and the true floor), so the finite sum the code forms is the full expansion `Σ_{k∈ℤ} c[k]·βⁿ(x − k)`; (4) `βⁿ` is
+even and vanishes outside `[−(n+1)/2, (n+1)/2)`. -/
+theorem C18_weights_are_bsplines {K : Type} [Field K] [LinearOrder K] [IsStrictOrderedRing K]
+    {fl : K → Int} (h : IsFloor fl) (order : Nat) (h1 : 1 ≤ order) (h5 : order ≤ 5) (x : K) :
+    bspline order x = splineCoeff order (absV x) ∧
+    weights fl order x
+      = (List.range (order + 1)).map (fun hh =>
+          bspline order (x - ((startIdx fl order x + ((hh : Nat) : Int) : Int) : K))) ∧
+    (∀ k : Int, (k < startIdx fl order x ∨ startIdx fl order x + (order : Int) < k) →
+      bspline order (x - (k : K)) = 0) ∧
+    bspline order (-x) = bspline order x ∧
+    ((x < -(((order : K) + 1) / 2) ∨ ((order : K) + 1) / 2 ≤ x) → bspline order x = 0) :=
+  ⟨bspline_eq_splineCoeff order h1 h5 x, weights_eq_bspline fl order h1 h5 x,
+    fun k hk => bspline_outside_knots h order x k hk, bspline_even order h1 h5 x, bspline_support order x⟩
+
+/-- **C18 (`zoom_shift` evaluates the cardinal B-spline expansion).** `C18_zoom_shift_is_tensor_spline` with the
+weights identified: for orders 1–5, every rank, shape, border mode and every output position whose mapped
+coordinates `x_r` lie inside `[0, len_r − 1]`, the `zoom_shift` model returns
+`Σ_{h_0} β(x_0 − k_0) · Σ_{h_1} β(x_1 − k_1) ⋯ c[fold k_0, fold k_1, …]`, `k_r = start(x_r) + h_r`, `β = bspline order`
+(`bsplineAxes`): the tensor-product B-spline expansion `Σ_k c[k]·Π_r βⁿ(x_r − k_r)` of the (mirror-extended)
+coefficient array evaluated at the mapped coordinate — all other knots contribute nothing
+(`C18_weights_are_bsplines` (3)). -/
+theorem C18_zoom_shift_is_bspline_expansion {K : Type} [Field K] [LinearOrder K] [IsStrictOrderedRing K]
+    (fl : K → Int) (order : Nat) (h1 : 1 ≤ order) (h5 : order ≤ 5) (m : Mode) (cval : K) (im : Img K)
+    (shifts zooms : List (Option K)) (p : List Int)
+    (hr : InRange im.shape (coordsOf im.shape p shifts zooms)) :
+    pixel fl order m cval im shifts zooms p
+      = nestedSum (fun pos => im.getD pos 0)
+          (bsplineAxes fl order im.shape (coordsOf im.shape p shifts zooms)) := by
+  rw [(C18_zoom_shift_is_tensor_spline fl order m cval im shifts zooms p hr).2.1,
+    splineAxes_eq_bsplineAxes fl order h1 h5]
+
+/-- non-vacuity: over ℚ, `β³(½) = 23/48` and `β²(¼) = 11/16` from the recursion -/
+example : bspline 3 (1 / 2 : ℚ) = 23 / 48 ∧ bspline 2 (1 / 4 : ℚ) = 11 / 16 := by
+  constructor <;> norm_num [bspline]
+
+/-- **C18 (`interpolation_property`, orders 2 and 3, any rank).** Composition of the prefilter theorems with the
+evaluation theorem. Let `c` be what the separable prefilter produces from the samples `f` (`prefilterNd`: along axis
+0, then 1, …, every line goes through `lineFilter1`: `line *= weight`, then `onePole` — the recursions `filterLine`
+runs — from an initial value `ini len line`), with an exact pole (`z² + λz + 1 = 0`, `λ = 6` for order 2, `λ = 4` for
+order 3, `weight = 2 + λ`) and the exact mirror-symmetric initial values (`MirrorInit`; the code's `initFull` on short
+lines, `C18_initFull_is_mirror_init`), every axis of at least two samples. Then at **every** output position whose
+mapped coordinates are an integer position `js` inside the array — zero shift, integer shifts with the source inside
+the array, unit zoom, the corners of every zoom — the whole `zoom_shift` model returns exactly `f js`: the spline
+interpolant interpolates. Any rank (tensor product), any border mode. Not covered: the floating-point pole is only an
+approximate root; long lines start from the truncated sum (`C18_prefilter_truncation_bound`); that the array loop
+`filterAxis` of the `Float` driver visits the lines as `prefilterNd` does is tied by the correspondence run
+(`kind=sf`), not proved. -/
+theorem C18_interpolation_property {K : Type} [Field K] [LinearOrder K] [IsStrictOrderedRing K]
+    {fl : K → Int} (h : IsFloor fl) (m : Mode) (cval : K) (order : Nat) (lam z : K)
+    (hord : (order = 2 ∧ lam = 6) ∨ (order = 3 ∧ lam = 4))
+    (hz : z * z + lam * z + 1 = 0) (hz1 : z * z - 1 ≠ 0)
+    (ini : Nat → (Nat → K) → K) (im : Img K) (hshape : ∀ len ∈ im.shape, 2 ≤ len)
+    (hini : ∀ len ∈ im.shape, ∀ s : Nat → K, MirrorInit z len s (ini len s))
+    (f : List Int → K)
+    (hdata : ∀ pos, inside im.shape pos = true →
+      im.getD pos 0 = prefilterNd (lineFilter1 z (2 + lam) ini) im.shape f pos)
+    (shifts zooms : List (Option K)) (p js : List Int) (hin : inside im.shape js = true)
+    (hc : coordsOf im.shape p shifts zooms = js.map fun (j : Int) => (j : K)) :
+    pixel fl order m cval im shifts zooms p = f js := by
+  rw [pixel_at_integer fl order m cval im shifts zooms p js (fun len hl => by have := hshape len hl; omega) hin hc
+    _ hdata]
+  apply nested_prefilter fl order _ im.shape js f _ hin
+  intro len hlen s j h0 h1
+  rcases hord with ⟨rfl, rfl⟩ | ⟨rfl, rfl⟩
+  · rw [axisComb2 h]
+    have := line_inverts z 6 hz hz1 (by norm_num) ini len (hshape len hlen) (hini len hlen) s j h0 h1
+    have e : edgeFold len j = j := edgeFold_inside len j h0 h1
+    rw [e] at this ⊢
+    linear_combination this
+  · rw [axisComb3 h]
+    have := line_inverts z 4 hz hz1 (by norm_num) ini len (hshape len hlen) (hini len hlen) s j h0 h1
+    have e : edgeFold len j = j := edgeFold_inside len j h0 h1
+    rw [e] at this ⊢
+    linear_combination this
+
+/-- **C18 (`interpolation_property` with the code's own initialisation).** The instance of
+`C18_interpolation_property` for `ini = initFull z (z^(len−1))`, the closed form `spline_filter1d` uses on lines of at
+most 20 / 27 samples (orders 2 / 3): no hypothesis on the initial values is left. -/
+theorem C18_interpolation_property_short_lines {K : Type} [Field K] [LinearOrder K] [IsStrictOrderedRing K]
+    {fl : K → Int} (h : IsFloor fl) (m : Mode) (cval : K) (order : Nat) (lam z : K)
+    (hord : (order = 2 ∧ lam = 6) ∨ (order = 3 ∧ lam = 4))
+    (hz : z * z + lam * z + 1 = 0) (hz1 : z * z - 1 ≠ 0)
+    (im : Img K) (hshape : ∀ len ∈ im.shape, 2 ≤ len)
+    (hP : ∀ len ∈ im.shape, 1 - z ^ (len - 1) * z ^ (len - 1) ≠ 0)
+    (f : List Int → K)
+    (hdata : ∀ pos, inside im.shape pos = true →
+      im.getD pos 0
+        = prefilterNd (lineFilter1 z (2 + lam) (fun len s => initFull z (z ^ (len - 1)) len s)) im.shape f pos)
+    (shifts zooms : List (Option K)) (p js : List Int) (hin : inside im.shape js = true)
+    (hc : coordsOf im.shape p shifts zooms = js.map fun (j : Int) => (j : K)) :
+    pixel fl order m cval im shifts zooms p = f js := by
+  have hz0 : z ≠ 0 := by
+    rintro rfl
+    simp at hz
+  exact C18_interpolation_property h m cval order lam z hord hz hz1 _ im hshape
+    (fun len hl s => initFull_mirrorInit z hz0 len (hshape len hl) (hP len hl) s) f hdata shifts zooms p js hin hc
+
+/-- non-vacuity of `prefilterNd` / `lineFilter1`: on a 2-sample line over ℚ with the (non-root) value `z = 1/2`,
+    weight 8 and initial value `s 0`, the filtered line is computed -/
+example : prefilterNd (lineFilter1 (1 / 2 : ℚ) 8 (fun _ s => s 0)) [2] (fun p => ((p.getD 0 0 + 1 : Int) : ℚ)) [0]
+    = -12 := by
+  norm_num [prefilterNd, lineFilter1, onePole, anticausalRev, causal]
+
+/-- **C18 (order 5 at integer coordinates).** At an integer coordinate `n` the six weights of order 5 are the quintic
+B-spline sampled at the integers, `(1/120, 13/60, 11/20, 13/60, 1/120, 0)`, on the knots `n−2 … n+3`. -/
+theorem C18_integer_weights_order5 {K : Type} [Field K] [LinearOrder K] [IsStrictOrderedRing K]
+    {fl : K → Int} (h : IsFloor fl) (n : Int) :
+    startIdx fl 5 (n : K) = n - 2 ∧
+    weights fl 5 (n : K) = [1 / 120, 13 / 60, 11 / 20, 13 / 60, 1 / 120, 0] := by
+  refine ⟨?_, weights_int5 h n⟩
+  simp [startIdx, h.int]
+
+/-- **C18-T4 (order 5: every sample).** The order-5 instance of the two-pole theorems: if `z₁, z₂` are exact roots of
+`z² + λᵢz + 1` with `λ₁ + λ₂ = 26`, `λ₁λ₂ = 64` (the factorisation of the sampled quintic B-spline
+`(1, 26, 66, 26, 1)/120`; `init_poles`' values for order 5 satisfy this to rounding), then the weight
+`(1−z₁)(1−1/z₁)(1−z₂)(1−1/z₂)` is 120 and the coefficients `c = onePole z₂ c₂ (onePole z₁ c₁ (120·f))` satisfy
+`(c[k−2] + 26c[k−1] + 66c[k] + 26c[k+1] + c[k+2])/120 = f[k]` at every sample `2 ≤ k ≤ n−3` and at the last two
+(mirrored knots `c[n] = c[n−2]`, `c[n+1] = c[n−3]`) for **any** initial values, and at samples 0 and 1 (mirrored
+knots `c[−1] = c[1]`, `c[−2] = c[2]`) when both causal passes start from their exact mirror-symmetric values
+(`MirrorInit`). With `C18_integer_weights_order5` this is "the expansion reproduces the samples" for order 5. -/
+theorem C18_prefilter_inverts_order5 {K : Type} [Field K] (z1 z2 l1 l2 c1 c2 : K) (n : Nat) (hn : 4 ≤ n)
+    (h1 : z1 * z1 + l1 * z1 + 1 = 0) (h2 : z2 * z2 + l2 * z2 + 1 = 0)
+    (hz1 : z1 * z1 - 1 ≠ 0) (hz2 : z2 * z2 - 1 ≠ 0) (hs : l1 + l2 = 26) (hp : l1 * l2 = 64)
+    (h120 : (120 : K) ≠ 0) (f : Nat → K) :
+    let c := onePole z2 c2 n (onePole z1 c1 n (fun i => 120 * f i))
+    (1 - z1) * (1 - 1 / z1) * ((1 - z2) * (1 - 1 / z2)) = 120 ∧
+    (∀ k, 2 ≤ k → k + 3 ≤ n →
+      1 / 120 * c (k - 2) + 13 / 60 * c (k - 1) + 11 / 20 * c k + 13 / 60 * c (k + 1) + 1 / 120 * c (k + 2) = f k) ∧
+    (1 / 120 * c (n - 4) + 13 / 60 * c (n - 3) + 11 / 20 * c (n - 2) + 13 / 60 * c (n - 1) + 1 / 120 * c (n - 2)
+      = f (n - 2)) ∧
+    (1 / 120 * c (n - 3) + 13 / 60 * c (n - 2) + 11 / 20 * c (n - 1) + 13 / 60 * c (n - 2) + 1 / 120 * c (n - 3)
+      = f (n - 1)) ∧
+    (MirrorInit z1 n (fun i => 120 * f i) c1 → MirrorInit z2 n (onePole z1 c1 n (fun i => 120 * f i)) c2 →
+      (1 / 120 * c 2 + 13 / 60 * c 1 + 11 / 20 * c 0 + 13 / 60 * c 1 + 1 / 120 * c 2 = f 0) ∧
+      (1 / 120 * c 1 + 13 / 60 * c 0 + 11 / 20 * c 1 + 13 / 60 * c 2 + 1 / 120 * c 3 = f 1)) := by
+  intro c
+  simp only [c]
+  have h60 : (60 : K) ≠ 0 := fun e => h120 (by linear_combination 2 * e)
+  have h20 : (20 : K) ≠ 0 := fun e => h120 (by linear_combination 6 * e)
+  refine ⟨?_, ?_, ?_, ?_, ?_⟩
+  · rw [poleWeight_eq z1 l1 h1, poleWeight_eq z2 l2 h2]
+    linear_combination 2 * hs + hp
+  · intro k hk hk'
+    have key := twoPole_interior z1 z2 l1 l2 c1 c2 h1 h2 n (fun i => 120 * f i) k hk hk'
+    simp only [hs, hp] at key
+    field_simp
+    linear_combination 1200 * key
+  · have key := (twoPole_last z1 z2 l1 l2 c1 c2 h1 h2 hz1 hz2 n hn (fun i => 120 * f i)).1
+    simp only [hs, hp] at key
+    field_simp
+    linear_combination 1200 * key
+  · have key := (twoPole_last z1 z2 l1 l2 c1 c2 h1 h2 hz1 hz2 n hn (fun i => 120 * f i)).2
+    simp only [hs, hp] at key
+    field_simp
+    linear_combination 1200 * key
+  · intro hi1 hi2
+    obtain ⟨k0, k1⟩ := twoPole_first z1 z2 l1 l2 c1 c2 h1 h2 hz1 hz2 n hn (fun i => 120 * f i) hi1 hi2
+    simp only [hs, hp] at k0 k1
+    constructor
+    · field_simp
+      linear_combination 1200 * k0
+    · field_simp
+      linear_combination 1200 * k1
+
+/-- **C18-T3 (`resize_to_shape`).** `resize_to(im, nsize, order)` (the wrapper model `resizeTo`, transliterated from
+`resize.py`: length check, `out = np.empty(nsize)`, `zoom(…, out=out)`) raises exactly when `len(nsize) != im.ndim`,
+and otherwise returns `zoom`'s result onto the requested shape: the shape is **exactly** `nsize` for every list of
+target lengths, and everything proved about `zoomGlue` (coordinate map, corners, interpolation) applies. -/
+theorem C18_resize_to_shape {K : Type} [Field K] [LinearOrder K] [IsStrictOrderedRing K]
+    (fl : K → Int) (pre : Img K → Img K) (order : Nat) (im : Img K) (nsize : List Nat) :
+    (resizeTo fl pre order im nsize = none ↔ nsize.length ≠ im.shape.length) ∧
+    (∀ r, resizeTo fl pre order im nsize = some r →
+      r.shape = nsize ∧ r = zoomGlue fl order .constant 0 (pre im) nsize) := by
+  by_cases hl : nsize.length = im.shape.length
+  · rw [resizeTo_some fl pre order im nsize hl]
+    refine ⟨by simp [hl], ?_⟩
+    intro r hr
+    simp only [Option.some.injEq] at hr
+    subst hr
+    exact ⟨rfl, rfl⟩
+  · rw [resizeTo_none fl pre order im nsize hl]
+    exact ⟨by simp [hl], by intro r hr; cases hr⟩
+
+/-- **C18-T3 (`imresize_shape`).** `imresize(img, nsize, order)` on its integer path (`imresizeInt`, `resize.py` as
+repaired by `5b53411`: the requested shape is handed to `zoom` as `out`) returns an array of **exactly** the requested
+shape for every integer target — including a length-49 axis resized to 1 sample, where the former `int(s·(n/s))`
+gave 0 — and its values are `zoom`'s onto that shape. -/
+theorem C18_imresize_shape {K : Type} [Field K] [LinearOrder K] [IsStrictOrderedRing K]
+    (fl : K → Int) (pre : Img K → Img K) (order : Nat) (img : Img K) (nsize : List Nat)
+    (hl : nsize.length = img.shape.length) :
+    imresizeInt fl pre order img nsize = some (zoomGlue fl order .constant 0 (pre img) nsize) ∧
+    (zoomGlue fl order .constant 0 (pre img) nsize).shape = nsize ∧
+    (∀ data : Array K, (imresizeInt fl pre order { shape := [49], data := data } [1]).map (·.shape) = some [1]) := by
+  refine ⟨?_, rfl, ?_⟩
+  · unfold imresizeInt
+    rw [if_neg (by simp [hl])]
+    simp
+  · intro data
+    simp [imresizeInt, zoomGlue, zoomShift, Img.tabulate]
+
+/-- **C18-T3 (`resize_rgb_to_shape`).** `resize_rgb_to(im, (h', w'), order)` on an `(h, w, 3)` array (`resizeRgbTo`:
+`_check_3`, `np.dstack` of `resize_to` of the three channels `im.transpose((2,0,1))`): the result has shape
+`(h', w', 3)` exactly, and its entry `(y, x, c)` is entry `(y, x)` of `zoom` applied to channel `c` alone onto
+`(h', w')` — the channels are resized independently, each as `resize_to` does; channel `c` is the `(h, w)` array
+`im[:, :, c]`. A wrong rank / third axis ≠ 3 raises. -/
+theorem C18_resize_rgb_to_shape {K : Type} [Field K] [LinearOrder K] [IsStrictOrderedRing K]
+    (fl : K → Int) (pre : Img K → Img K) (order : Nat) (im : Img K) (h w h' w' : Nat)
+    (hs : im.shape = [h, w, 3]) :
+    ∃ r, resizeRgbTo fl pre order im [h', w'] = some r ∧ r.shape = [h', w', 3] ∧
+      (∀ (y x : Int) (c : Nat), 0 ≤ y → y < h' → 0 ≤ x → x < w' → c < 3 →
+        r.getD [y, x, (c : Int)] 0
+          = (zoomGlue fl order .constant 0 (pre (channel im c)) [h', w']).getD [y, x] 0) ∧
+      (∀ c, (channel im c).shape = [h, w]) ∧
+      (∀ (y x : Int) (c : Nat), 0 ≤ y → y < h → 0 ≤ x → x < w →
+        (channel im c).getD [y, x] 0 = im.getD [y, x, (c : Int)] 0) := by
+  refine ⟨_, resizeRgbTo_some fl pre order im h w hs [h', w'] rfl, rfl, ?_, ?_, ?_⟩
+  · intro y x c hy0 hy1 hx0 hx1 hc
+    have hin : inside ([h', w'] ++ [((List.range 3).map fun c =>
+        zoomGlue fl order .constant 0 (pre (channel im c)) [h', w']).length]) [y, x, (c : Int)] = true := by
+      simp [inside, hy0, hy1, hx0, hx1]
+      omega
+    unfold dstack
+    rw [tabulate_getD' _ _ _ _ hin]
+    have r : List.range 3 = [0, 1, 2] := rfl
+    have hc' : c = 0 ∨ c = 1 ∨ c = 2 := by omega
+    rcases hc' with rfl | rfl | rfl <;> simp [r]
+  · intro c
+    rw [channel_shape, hs]; rfl
+  · intro y x c hy0 hy1 hx0 hx1
+    exact channel_getD im h w 3 hs c y x ⟨hy0, hy1⟩ ⟨hx0, hx1⟩
+
+/-- `resize_rgb_to` raises on anything that is not `(h, w, 3)` -/
+example : resizeRgbTo (fun z : ℚ => ⌊z⌋) id 1 { shape := [2, 2], data := #[0, 1, 2, 3] } [2, 2] = none := by
+  simp [resizeRgbTo]
